@@ -146,7 +146,10 @@ def main():
                 o = cvc5_second_opinion(r.get("smt2"))
                 if o == "unsat": r["status"] = "proved"; r["backend"] = "cvc5"
             by_backend[r["backend"]] = by_backend.get(r["backend"], 0) + (r["status"] == "proved")
-        vacuous = [r["name"] for r in canaries if r["status"] == "proved"] + [r["name"] + ":" + r["detail"] for r in guards if r["status"] != "proved"]
+        cgroups = {}
+        for r in canaries: cgroups.setdefault((r["unit"], r["name"], r["path"].split("path")[0]), []).append(r["status"])
+        # a canary (a deliberately false clause) must fail on at least one path of its scenario
+        vacuous = [k[1] for k, sts in cgroups.items() if all(x == "proved" for x in sts)] + [r["name"] + ":" + r["detail"] for r in guards if r["status"] != "proved"]
         refuted = [r for r in obligations if r["status"] == "refuted"]
         unknown = [r for r in obligations if r["status"] == "unknown"]
         known_hits = {}; violations = []
